@@ -7,6 +7,8 @@ import (
 	"fmt"
 	"os"
 	"os/exec"
+	"runtime"
+	"runtime/debug"
 	"strings"
 	"time"
 
@@ -200,6 +202,8 @@ func cmdReplay(args []string) {
 			fmt.Fprintln(os.Stderr, "no product", v.Universe)
 			os.Exit(2)
 		}
+		debug.SetGCPercent(-1)
+		runtime.GOMAXPROCS(1)
 		v2, err := hist.EvalProduct(sp, v.Product, nil)
 		if err != nil {
 			fmt.Fprintln(os.Stderr, "replay error:", err)
